@@ -31,6 +31,8 @@ def translate(events):
             continue
         if ev == "New":
             out.append({"ev": "New", "name": e.get("name", "")})
+            if "pipelined" in e.get("name", ""):
+                out.append({"ev": "stim", "c": "", "m": stim("pipelined")})
         elif ev == "settled":
             out.append({"ev": "settled"})
         elif ev in ("closews", "wsclosed"):
@@ -169,6 +171,21 @@ def corpus():
           ["publish", "P", "s2", "camera", 1, 1, "s1"], ["sleep", 40], ["publish", "P", "s3", "camera", 1, 1, "s2"], ["waittracks", "s3", 2, 6000], S,
           ["publish", "P", "s4", "camera", 1, 0, "s3"], ["sleep", 40], ["unpublish", "P", "s4"], ["sleep", 500], S, S]
     out.append({"name": "chained-replacements", "steps": st})
+    # a member that left and came back has no request until it sends one
+    st = [["ws", "P"], J("P"), S, ["ws", "A"], J("A"), S] + R("A", AV) + [["send", "A", {"type": "join", "kind": "leave", "group": "g"}], S, J("A"), S,
+          ["publish", "P", "s1", "camera", 1, 1], ["waittracks", "s1", 2, 6000], S] + R("A", {"": ["audio"]}) + \
+         [["send", "A", {"type": "join", "kind": "leave", "group": "g"}], S, J("A", "", "h"), S, J("P", "", "h"), S, S]
+    out.append({"name": "rejoin-without-request", "steps": st})
+    # somebody joins and requests while a publication is starting (the server coalesces its pushes over 200 ms); not quiescent in between
+    for d in (0, 20, 60, 100, 150, 250):
+        st = [["ws", "P"], J("P"), S, ["ws", "A"], J("A"), S] + R("A", AV) + [["ws", "B"],
+              ["publish", "P", "s1", "camera", 1, 1], ["sleep", d], J("B"), ["send", "B", {"type": "request", "request": AV}], ["waittracks", "s1", 2, 6000], S, S]
+        out.append({"name": "pipelined-join-while-a-stream-starts-%d" % d, "steps": st})
+    # the same with a publisher whose first packet comes late: the newcomer arrives between the offer and the first track
+    script = [["p", 1000 + i, 700 if i == 0 else 5] for i in range(120)]
+    st = [["ws", "P"], J("P"), S, ["ws", "A"], J("A"), S] + R("A", AV) + [["ws", "B"],
+          ["rtpscript", "P", "s1", "camera", script], ["sleep", 250], J("B"), ["send", "B", {"type": "request", "request": AV}], ["rtpwait", "P", "s1", 20000], ["waittracks", "s1", 1, 6000], S, S]
+    out.append({"name": "pipelined-join-before-the-first-track", "steps": st})
     return out
 
 
